@@ -804,6 +804,16 @@ static ares_status_t process_answer(ares_channel_t      *channel,
     goto cleanup;
   }
 
+  /* The reply must arrive on the connection the query is currently assigned
+   * to.  A query that has since been re-sent elsewhere, or that is waiting to
+   * be re-sent (truncated reply, bad cookie, server failure seen earlier in
+   * this very read), must not be answered or re-queued again by a late or
+   * duplicate reply on a connection it no longer belongs to. */
+  if (query->conn != conn) {
+    status = ARES_SUCCESS;
+    goto cleanup;
+  }
+
   /* Both the query id and the questions must be the same. We will drop any
    * replies that aren't for the same query as this is considered invalid. */
   if (!same_questions(query, rdnsrec)) {
